@@ -2001,7 +2001,7 @@ func c17DecodePar(rt reflect.Type, f func(ptr any) error) (out string) {
 	return b.String()
 }
 
-var c17ReaderModes = []string{"plain", "onebyte", "zero", "cut", "short", "errfirst", "tail", "panic", "panicstr"}
+var c17ReaderModes = []string{"plain", "onebyte", "zero", "cut", "short", "errfirst", "tail", "panic", "panicstr", "goexit"}
 
 var errC17Reader = fmt.Errorf("c17: reader failed")
 
@@ -2023,6 +2023,8 @@ func (r *c17Reader) Read(p []byte) (int, error) {
 		panic(errC17Reader)
 	case "panicstr":
 		panic("c17 reader")
+	case "goexit":
+		runtime.Goexit() // ends the calling goroutine (t.FailNow / t.Skip inside a reader do this); deferred calls run
 	case "zero":
 		if r.calls%2 == 1 {
 			return 0, nil
@@ -2380,16 +2382,26 @@ func c17NewStep(t *testing.T) func(op []string) string {
 			js, ys := d.renderJSON(style), d.renderYAML(style)
 			ts, tok := d.renderTOML(style)
 			rd := func(s string) io.Reader { return &c17Reader{data: []byte(s), mode: mode} }
+			// the reader calls run on a goroutine of their own: a reader may end it (mode goexit); "goexit" = it never returned
+			viaR := func(f func(v any) error) string {
+				done := make(chan string, 1)
+				go func() {
+					res := "goexit"
+					defer func() { done <- res }()
+					res = c17DecodePar(rt, f)
+				}()
+				return <-done
+			}
 			out := []string{
 				"JB=" + c17Decode(rt, func(v any) error { return mapping.UnmarshalJsonBytes([]byte(js), v, opts...) }),
-				"JR=" + c17Decode(rt, func(v any) error { return mapping.UnmarshalJsonReader(rd(js), v, opts...) }),
+				"JR=" + viaR(func(v any) error { return mapping.UnmarshalJsonReader(rd(js), v, opts...) }),
 				"YB=" + c17Decode(rt, func(v any) error { return mapping.UnmarshalYamlBytes([]byte(ys), v, opts...) }),
-				"YR=" + c17Decode(rt, func(v any) error { return mapping.UnmarshalYamlReader(rd(ys), v, opts...) }),
+				"YR=" + viaR(func(v any) error { return mapping.UnmarshalYamlReader(rd(ys), v, opts...) }),
 			}
 			if tok {
 				out = append(out,
 					"TB="+c17Decode(rt, func(v any) error { return mapping.UnmarshalTomlBytes([]byte(ts), v, opts...) }),
-					"TR="+c17Decode(rt, func(v any) error { return mapping.UnmarshalTomlReader(rd(ts), v, opts...) }))
+					"TR="+viaR(func(v any) error { return mapping.UnmarshalTomlReader(rd(ts), v, opts...) }))
 			} else {
 				out = append(out, "TB=skip", "TR=skip")
 			}
